@@ -229,7 +229,16 @@ def readFromStream(substrate, size=-1, context=None):
             raise error.EndOfStreamError(context=context)
 
         elif len(received) < size:
+            # a stream that has ended answers the next read with an
+            # empty string, one that is merely out of data with None
+            more = substrate.read(1)
+            if more:
+                substrate.seek(-1, os.SEEK_CUR)
+
             substrate.seek(-len(received), os.SEEK_CUR)
+
+            if more is not None and not more:
+                raise error.EndOfStreamError(context=context)
 
             # behave like a non-blocking stream
             yield error.SubstrateUnderrunError(context=context)
